@@ -27,6 +27,11 @@ JSignBuild(e) ==
      R("C06", "still_verifies_after_serialise_and_parse", built /\ r.serok, r.rt_parse_ok /\ r.rt_verify_ok, cls),
      R("C14", "constructor_ok_implies_validate_ok", built /\ r.hasvalid, r.validok, cls),
      R("C14", "valid_value_round_trips", built /\ r.hasvalid /\ r.validok, r.serok /\ r.rt_parse_ok /\ r.rt_same, cls),
+     R("C14", "constructor_rejects_documented_defect", r.setup /\ e.fn = "NewEncryptedLeaseSet" /\
+          (  m.off # (m.flags % 2 = 1) \/ m.flags \div 4 # 0 \/ m.expires = 0 \/ m.innerlen < 61
+          \/ ("keydelta" \in DOMAIN m /\ m.keydelta # 0)), ~r.ok,
+       cls \o "/" \o (IF e.fn # "NewEncryptedLeaseSet" THEN "-" ELSE IF m.off # (m.flags % 2 = 1) THEN "offlineflag" ELSE IF m.flags \div 4 # 0 THEN "reservedflags" ELSE IF m.expires = 0 THEN "expires0"
+                       ELSE IF m.innerlen < 61 THEN "innershort" ELSE "keylen")),
      R("C02", "signed_constructor_output_decodes_to_model", built /\ r.serok /\ e.fn = "NewRouterInfo",
        LET d == RefRouterInfo(r.ser) IN
        d.ok /\ d.consumed = Len(r.ser) /\ d.naddr = m.naddr /\ d.optPairs = SortPairs(m.pairs) /\ d.id.st = e.st, cls),
